@@ -12,15 +12,6 @@ use std::collections::BTreeMap;
 
 pub struct C19;
 
-fn parse_cells(row: &str) -> Vec<Value> {
-    // cells are JSON scalars rendered with to_string(); strings in generated worlds contain no commas
-    row.split(',').map(|c| if c.is_empty() { Value::Null } else { serde_json::from_str(c).unwrap_or(Value::String(format!("UNPARSEABLE:{}", c))) }).collect()
-}
-
-fn rows_match(a: &[Value], wild: &[bool], b: &[Value]) -> bool {
-    a.len() == b.len() && a.iter().zip(b.iter()).enumerate().all(|(i, (x, y))| wild.get(i).copied().unwrap_or(false) || json_close(x, y, 1e-9))
-}
-
 fn strip_csv_keys(r: &Value) -> Value {
     let mut x = r.clone();
     if let Some(m) = x.as_object_mut() {
@@ -114,11 +105,13 @@ fn judge_sink(out: &crate::world::OutFile, earlier_csv: &[Vec<(String, Value)>],
             }
         }
         OutFormat::Csv { .. } => {
-            if !text.ends_with('\n') && !relaxed {
-                v.push(Violation { class: "file-corrupt".into(), detail: "CSV file does not end with a newline (truncated row)".into() });
+            // the file is read as CSV without prescribing how a cell is escaped: JSON rendering (what the
+            // writer produces today), RFC 4180 quoting or bare text are all accepted for the same value
+            let (mut recs, unfinished) = parse_csv_records(&text);
+            if (unfinished || !text.ends_with('\n')) && !relaxed && !text.is_empty() {
+                v.push(Violation { class: "file-corrupt".into(), detail: "CSV file does not end with a line break (truncated row)".into() });
             }
-            let mut lines: Vec<&str> = text.lines().collect();
-            if lines.is_empty() {
+            if recs.is_empty() {
                 if relaxed {
                     bump("header_lost_to_hard_fault", 1);
                 } else {
@@ -126,8 +119,9 @@ fn judge_sink(out: &crate::world::OutFile, earlier_csv: &[Vec<(String, Value)>],
                 }
                 return;
             }
-            let header = lines.remove(0);
-            let cols = match csv_columns_from_header(&out.format, header) {
+            let header_cells = recs.remove(0);
+            let header: String = header_cells.iter().map(|c| match c { Cell::Text(t) => t.clone(), Cell::Json(Value::String(t)) => t.clone(), Cell::Json(j) => j.to_string() }).collect::<Vec<_>>().join(",");
+            let cols = match csv_columns_from_header(&out.format, &header) {
                 Ok(c) => c,
                 Err(e) => {
                     if relaxed {
@@ -139,25 +133,26 @@ fn judge_sink(out: &crate::world::OutFile, earlier_csv: &[Vec<(String, Value)>],
                     return;
                 }
             };
-            if lines.iter().any(|l| *l == header) {
+            if recs.iter().any(|r| *r == header_cells) {
                 v.push(Violation { class: "csv-header-repeated".into(), detail: "the header appears more than once".into() });
             }
-            bump("csv_rows_found", lines.len() as u64);
+            bump("csv_rows_found", recs.len() as u64);
             // expected rows from the isolated responses (the formatter sees the response before it adds anything)
-            let expected_rows: Vec<Vec<Value>> = expected_ref.iter().map(|r| parse_cells(&expected_row(&cols, r).0)).collect();
+            let expected_rows: Vec<Vec<Value>> = expected_ref.iter().map(|r| expected_cells(&cols, r).0).collect();
+            let csv_err_rows = expected_ref.iter().filter(|r| expected_cells(&cols, r).1).count();
+            bump("csv_rows_with_unmappable_cell", csv_err_rows as u64);
+            bump("csv_cells_with_line_break_or_comma", expected_rows.iter().flatten().filter(|c| c.as_str().map_or(false, |s| s.contains('\n') || s.contains(','))).count() as u64);
             // a CSV sink earlier in a combined policy has recorded its unmappable columns in the response
             // ("error" / "csv_error") before this sink saw it: columns that read the error are then not comparable
             let wild: Vec<Vec<bool>> = expected_ref
                 .iter()
                 .map(|r| {
-                    let tainted = earlier_csv.iter().any(|m| expected_row(m, r).1);
+                    let tainted = earlier_csv.iter().any(|m| expected_cells(m, r).1);
                     cols.iter().map(|(_, m)| tainted && m.to_string().contains("error")).collect()
                 })
                 .collect();
-            let csv_err_rows = expected_ref.iter().filter(|r| expected_row(&cols, r).1).count();
-            bump("csv_rows_with_unmappable_cell", csv_err_rows as u64);
-            let mut used = vec![false; lines.len()];
-            let actual_rows: Vec<Vec<Value>> = lines.iter().map(|l| parse_cells(l)).collect();
+            let row_matches = |er: &Vec<Value>, w: &Vec<bool>, ar: &Vec<Cell>| er.len() == ar.len() && er.iter().zip(ar.iter()).enumerate().all(|(i, (e, c))| w.get(i).copied().unwrap_or(false) || cell_matches(e, c, 1e-9));
+            let mut used = vec![false; recs.len()];
             let mut missing = 0;
             let mut example = String::new();
             // exact rows first, rows with incomparable cells last (greedy matching must not let a
@@ -167,8 +162,8 @@ fn judge_sink(out: &crate::world::OutFile, earlier_csv: &[Vec<(String, Value)>],
             for ei in order {
                 let er = &expected_rows[ei];
                 let mut found = false;
-                for (i, ar) in actual_rows.iter().enumerate() {
-                    if !used[i] && rows_match(er, &wild[ei], ar) {
+                for (i, ar) in recs.iter().enumerate() {
+                    if !used[i] && row_matches(er, &wild[ei], ar) {
                         used[i] = true;
                         found = true;
                         break;
@@ -192,7 +187,7 @@ fn judge_sink(out: &crate::world::OutFile, earlier_csv: &[Vec<(String, Value)>],
                 }
                 if extra > 0 {
                     let i = used.iter().position(|u| !*u).unwrap();
-                    v.push(Violation { class: "csv-row-extra".into(), detail: format!("{} rows in the file belong to no response, e.g. {:?}", extra, lines[i]) });
+                    v.push(Violation { class: "csv-row-extra".into(), detail: format!("{} rows in the file belong to no response, e.g. {:?}", extra, recs[i]) });
                 }
             }
         }
